@@ -167,7 +167,11 @@ def gen_continuum(rng, n_annot=None, max_units=4, family=None, labels=None, p_no
                 continue
             units.add((s, e, lab))
         ann[name] = sorted(units, key=unit_key)
-    return {"ann": {a: [list(u) for u in us] for a, us in ann.items()}, "family": family}
+    spec = {"ann": {a: [list(u) for u in us] for a, us in ann.items()}, "family": family}
+    if rng.random() < 0.1:
+        # same values, but handed over as numpy scalars (times taken from an array, a cumulative sum, a data frame)
+        spec["time_type"] = "np.float64"
+    return spec
 
 
 def unit_key(u):
@@ -179,10 +183,14 @@ def build_continuum(spec):
     from pygamma_agreement import Continuum
     from pyannote.core import Segment
     c = Continuum()
+    wrap = float
+    if spec.get("time_type") == "np.float64":
+        import numpy as np
+        wrap = np.float64
     for a, units in spec["ann"].items():
         c.add_annotator(a)
         for s, e, lab in units:
-            c.add(a, Segment(s, e), lab)
+            c.add(a, Segment(wrap(s), wrap(e)), lab)
     return c
 
 
